@@ -461,7 +461,9 @@ def run(ctx):
 
     cw = []
     for cp, d in ((dict(base=65534), 6 if quick else 8), (dict(base=300, alphabet=["sub", "timer", "notify", "bcast:old", "drop", "use"]), 5 if quick else 7),
-                  (dict(base=300, alphabet=c18_conn.ALPH_POLL), 8 if quick else 9)):
+                  (dict(base=300, alphabet=c18_conn.ALPH_POLL), 8 if quick else 9),
+                  # subscribed characteristics the accessory reports by broadcast: a repeated copy of an accepted broadcast, nothing else going on
+                  (dict(base=300, ev_flags=(9, 10), alphabet=["sub", "timer", "drop", "bcast:+1", "bcast:same", "regular-adv", "use"]), 6 if quick else 8)):
         cp = dict(cp, seed=ctx.seed)
         cw += [(cp, r, d) for r in _ex.roots(lambda: c18_conn.ConnH(cp), 2)]
     ctx.pmap(_conn, cw)
